@@ -289,6 +289,8 @@ class BoundedGaussian(Gaussian):
             return super().prob(p)
 
     def sample(self, size=None):
+        if size is None:
+            return self.sample(1)[0]
         val = super().sample(size)
         out = np.logical_or(val < self.lower_bound, val > self.upper_bound)
         while np.any(out):
